@@ -362,4 +362,4 @@ LEVEL_NOTE = ("Partial for memory safety: real accesses are seen only by ASan (b
               "harness, generator. Modelled not verified: the C++ itself. Class sizes, bound, node count and struct sizes are re-read from the "
               "source on every run. The bare destructor does not walk the lists (documented limit: owners clear first).")
 TECHNIQUE = "Coq proof over hand-written executable model + extracted-model/implementation correspondence check (differential, exhaustive small histories)"
-READY = False
+READY = True
